@@ -560,7 +560,10 @@ class Evaluator:
                 try:
                     sub = Evaluator(self.index, self.module, st, f"{self.qual}.{st.name}", self.cls, self.env)
                     sub.inline_stack = self.inline_stack
+                    sub._n = self._n  # ids stay unique across nested evaluators, so the local functions defined so far
+                    sub.lambdas = dict(self.lambdas)  # can be applied inside this one
                     self.lambdas[lid] = sub.run()
+                    self._n = sub._n
                     self.env[st.name] = ("lambda", lid)
                 except (AnalysisError, RecursionError):
                     pass
@@ -1079,7 +1082,10 @@ class Evaluator:
     def e_Lambda(self, n, live):
         lid = self.fresh("F")
         sub = Evaluator(self.index, self.module, n, f"{self.qual}.<lambda {lid}>", self.cls, self.env)
+        sub._n = self._n
+        sub.lambdas = dict(self.lambdas)
         self.lambdas[lid] = sub.run()
+        self._n = sub._n
         return ("lambda", lid)
 
     def e_Await(self, n, live):
@@ -1120,6 +1126,13 @@ class Evaluator:
         norm = self._norm_call(f, args, named, spreads, live, n)
         if norm is not None:
             return norm
+        if f[0] == "lambda" and not named and not spreads and not any(a[0] == "star" for a in args):
+            # calling a local single-expression function: its value with the arguments substituted
+            v = self._apply_fn(f, args)
+            if not (v[0] == "call" and v[1] == f):
+                ev = self.emit("call", live, ("call", f, tuple(args), ()), n)
+                ev.kw_order = []  # type: ignore[attr-defined]
+                return v
         if f == ("builtin", "slice") and "slice" not in self.env and not named and not spreads and 1 <= len(args) <= 3 \
                 and not any(a[0] == "star" for a in args):
             # slice(a, b[, c]) is the subscript a:b[:c]
